@@ -99,6 +99,26 @@ CHECKS = {
              "emptiness and batch independence.",
         design="DESIGN.md §5 C03",
         note=TRUST + "; barycentric least-squares solve and bitwise batch comparison in harness/src/clip.rs"),
+    "C01": dict(
+        technique="TLA+ definition Pipeline of the ideal image by exact homogeneous rasterisation (no clipping, no scan "
+                  "conversion); TLC proves its agreement with the independent screen-space Raster formulation on a small "
+                  "lattice; trace validation of every pixel of recorded images",
+        text="TLC checks exhaustively on a small lattice that the homogeneous (clip-space) definition of visibility, "
+             "reciprocal depth and attribute agrees exactly with the screen-space edge-function formulation; real lattice "
+             "scenes (w of either sign, any planes crossed, several scales, layered occlusion) are rendered through all "
+             "three front doors and both target kinds, and TLC judges every unambiguous pixel against the exact image.",
+        design="DESIGN.md §5 C01",
+        note=TRUST + "; attribute smuggling, integer scaling and fan-edge extraction in harness/src/pipe.rs"),
+    "C02": dict(
+        technique="TLA+ model Envelope of the clip/divide/viewport/round chain with nondeterministic +-1 unit rounding "
+                  "(design-level safety of span indexing), plus trace validation of recorded render calls over the "
+                  "statement's float domain (panic, NaN, scanline and touched-pixel bounding boxes vs viewport)",
+        text="TLC explores every rounding outcome of the numeric chain for boundary inputs and shows span indices stay "
+             "inside the viewport (and finds the exact margin where they would not); seeded triangle soups with adversarial "
+             "values are rendered through the library's own projection/viewport matrices under every flag combination, "
+             "with a wrapper target recording every scanline, and TLC judges each call.",
+        design="DESIGN.md §5 C02",
+        note=TRUST + "; bounding-box projection of scanlines/touched pixels in harness/src/pipe.rs"),
 }
 
 NOT_YET = "check not built yet in this round (see DESIGN.md §9 for the order of work)"
